@@ -212,6 +212,43 @@ func runC01(c *fw.Ctx) {
 		}
 	}
 
+	// ---------- endurance: 70 000 back-propagations in ONE process (counters, generation marks, pooled state) ----------
+	c.Case(func(k *fw.K) {
+		n := 70000
+		k.Case = map[string]any{"family": "endurance", "back_propagations_in_one_process": n, "graph": "y = x*x + sin(x), x tracked [2]"}
+		k.Key("endurance/%d", n)
+		for i := 0; i < n; i++ {
+			a, b := 0.1+float64(i%97)/50, -0.3-float64(i%89)/70
+			x := rt.MustLeaf(ref.New([]int{2}, []float64{a, b}), true)
+			var err error
+			if p := call(func() {
+				var xx, y tensor.Tensor
+				if xx, err = x.Mul(x); err != nil {
+					return
+				}
+				if y, err = xx.Add(x.Sin()); err != nil {
+					return
+				}
+				err = tensor.BackPropagate(y)
+			}); p != nil || err != nil {
+				k.Failf("endurance: back-propagation number %d in this process failed: panic=%v err=%v", i+1, p, err)
+				return
+			}
+			g := x.Gradient()
+			if g == nil {
+				k.Failf("endurance: back-propagation number %d in this process left the tracked leaf without a gradient", i+1)
+				return
+			}
+			got, err := rt.Read(g)
+			want := ref.New([]int{2}, []float64{2*a + math.Cos(a), 2*b + math.Cos(b)})
+			if err != nil || gradClose(got, want) != nil {
+				k.Failf("endurance: back-propagation number %d in this process: gradient %v, expected %v (%v)", i+1, got, want.Data, err)
+				return
+			}
+		}
+		k.Count("endurance_backprops", int64(n))
+	})
+
 	// ---------- hook-free twin: allocation count on ladders run to completion ----------
 	c.Case(func(k *fw.K) { c01MallocTwin(k) })
 }
